@@ -62,7 +62,7 @@ func Props(c *Ctx) map[string]*Prop {
 			pf1Rule("no index, slice, type-assertion or division site reachable from ParseCommand(s) or a lexer goroutine can panic", 40,
 				func(c *Ctx) (map[*core.Func]bool, map[*core.Func]bool) { return c.parseScope() }),
 			rulePF2(), rulePF3("parser", "printer", "ast"), rulePF4("parser"), ruleYY1("parser"), ruleLAST1(), ruleCC1("parser"),
-			ruleGR1("parser"), ruleGR3(), rulePU8(), rulePU8b(), ruleRC2("parser"), ruleRC3(), ruleCC4("parser"), ruleCC6(), ruleGR4(),
+			ruleGR1("parser"), ruleGR3(), rulePU8(), rulePU8b(), ruleLV1(), ruleRC2("parser"), ruleRC3(), ruleCC4("parser"), ruleCC6(), ruleGR4(),
 			ruleCC7(), ruleCC8("parser"), ruleNL1(), ruleNL2(), ruleCC9("parser"), ruleNG1("parser"),
 		}})
 
@@ -73,7 +73,7 @@ func Props(c *Ctx) map[string]*Prop {
 			pf1Rule("no index, slice, type-assertion or division site reachable from a downstream entry point can panic", 50,
 				func(c *Ctx) (map[*core.Func]bool, map[*core.Func]bool) { return c.downstreamScope(), nil }),
 			rulePF2(), rulePF3("printer", "interp", "ast", "pattern"), rulePF4("interp"), rulePF5(), ruleYY1("interp"), ruleEF7(), ruleFLD1(), ruleFLD2(), ruleCC1("interp"),
-			ruleGR1("parser", "interp"), ruleGR3(), rulePU8(), rulePU8b(), ruleTB2(), ruleSP(), ruleGL(),
+			ruleGR1("parser", "interp"), ruleGR3(), rulePU8(), rulePU8b(), ruleLV1(), ruleTB2(), ruleSP(), ruleGL(),
 		}})
 	add(&Prop{ID: "C12",
 		Explanation: "Decides the translation-table side of pattern matching: every regular-expression metacharacter (oracle: regexp.QuoteMeta) is escaped or given pattern meaning in each of compile's three contexts, wild cards run in dot-all mode, the alternatives sit in exactly one capture group, anchors follow the mode bits exactly, bracket mode is left only at the closing bracket (BRK1), and no index/slice in Match/compile can panic on any pattern. Which prefix/suffix is selected (shortest/longest) and bracket-expression semantics are value-level and not decided.",
@@ -108,7 +108,7 @@ func Props(c *Ctx) map[string]*Prop {
 	add(&Prop{ID: "C18",
 		Explanation: "Decides purity, determinism and error reporting of the printer structurally: its only AST writes are the hide/undo idiom and every hide is undone by a deferred closure on all paths (PU1); nothing reachable from Fprint is a source of nondeterminism (PU2); all output goes through one buffered writer whose sticky error is returned through print, Config.Fprint and Fprint (EF5); here-document frames are balanced (PU8); the positions it consults are counted in characters (BR1, TB5) and nothing reachable from Fprint can panic (PF1). That the output is a fix-point of print∘parse is a value-level property and is not decided.",
 		Assumptions: []string{"bufio.Writer's sticky-error contract"},
-		Rules: []Rule{rulePU1(), rulePU2(), ruleEF5(), rulePU8(), rulePU8b(), ruleNG1("printer"), ruleBR1(), ruleTB5(), ruleGR1("parser"), ruleGR3(),
+		Rules: []Rule{rulePU1(), rulePU2(), ruleEF5(), rulePU8(), rulePU8b(), ruleLV1(), ruleNG1("printer"), ruleBR1(), ruleTB5(), ruleGR1("parser"), ruleGR3(),
 			pf1Rule("no index, slice or type-assertion site reachable from Fprint can panic", 20,
 				func(c *Ctx) (map[*core.Func]bool, map[*core.Func]bool) {
 					return c.scopeOf("printer.Fprint", "printer.(*Config).Fprint"), nil
@@ -118,7 +118,7 @@ func Props(c *Ctx) map[string]*Prop {
 		Rules:       []Rule{rulePU3(), rulePU4(), rulePU6(), rulePU9(), ruleTB8(), ruleGR1("interp"), ruleNG1("interp"), rulePP1(), rulePU10()}})
 	add(&Prop{ID: "C05",
 		Explanation: "Decides only side conditions of the print/parse round trip: every semantic AST field and every Config field is read by the printer (TB6); pending here-document frames are balanced on every path under every combination of the style bits that guard them (PU8); the operator sets of scanner and expander/printer agree (TB10); nil-encoded fields are tested against nil (TB13); the positions the printer consults to space arithmetic tokens are counted in characters and End() adds the width of the stored token (BR1, TB5), and adjacency of two tokens is decided from line and column together (PS1); nothing reachable from Fprint can panic (PF1). Whether printed text re-parses to the same tree is not decidable structurally and is not claimed.",
-		Rules: []Rule{ruleTB6(), rulePU8(), rulePU8b(), ruleTB10(), ruleTB13(), rulePF3("printer"), ruleBR1(), ruleTB5(), rulePS1("printer", "parser"), ruleGR1("parser"), ruleGR3(),
+		Rules: []Rule{ruleTB6(), rulePU8(), rulePU8b(), ruleLV1(), ruleTB10(), ruleTB13(), rulePF3("printer"), ruleBR1(), ruleTB5(), rulePS1("printer", "parser"), ruleGR1("parser"), ruleGR3(),
 			pf1Rule("no index, slice or type-assertion site reachable from Fprint can panic", 20,
 				func(c *Ctx) (map[*core.Func]bool, map[*core.Func]bool) {
 					return c.scopeOf("printer.Fprint", "printer.(*Config).Fprint"), nil
